@@ -213,6 +213,10 @@ func properties() map[string]Property {
 	for _, seq := range []int64{2, 7} {
 		c12 = append(c12, Job{Harness: "H_C12_hist", Args: []int64{1, 2, 1, seq}, Tier: "thorough", Covers: []string{"C12.done"}, Bounds: rb(1)})
 	}
+	for _, seq := range []int64{0, 9} {
+		c12 = append(c12, Job{Harness: "H_C12_hist", Args: []int64{15, 4, 1, seq}, Tier: "thorough", Covers: []string{"C12.done"},
+			Bounds: f15 + "; Xor, EvenOdd; history seq (0: a second execution after one that produced horizontal joins, 9: paths added after an execution)"})
+	}
 	ps["C12"] = Property{ID: "C12", Level: "model_checking",
 		Explain:  "bounded call histories on one engine object (concrete sequences of <= 4 calls, symbolic geometry) compared with a fresh engine on every feasible path; every store into a backing array reachable from a harness argument is flagged by the executor's heap monitor",
 		Assumes:  []string{floatAssume, heapAssume, solverAssume},
